@@ -88,14 +88,15 @@ def revalidation(F, R):
 def predicates(F, R):
     f = F.fn('iceoryx2_bb_system_types::file_name::invalid_characters')
     rejected = set()
-    for b in range(len(f.blocks)):
-        t = f.blocks[b]['t']
-        if t[0] == 'switch' and len(t[2]) >= 3:
-            for v, tgt in t[2]:
-                blk = f.blocks[tgt]
-                sets_true = any(st[0] == 'a' and st[1] == [0] and st[2][0] == 'use' and st[2][1][0] == 'k' and st[2][1][3] == 1 for st in blk['s'])
-                if sets_true:
-                    rejected.add(v)
+    for g_ in [f] + F.closures_of(f):     # the byte test may be a predicate closure handed to `iter().any(..)`
+        for b in range(len(g_.blocks)):
+            t = g_.blocks[b]['t']
+            if t[0] == 'switch' and len(t[2]) >= 3:
+                for v, tgt in t[2]:
+                    blk = g_.blocks[tgt]
+                    sets_true = any(st[0] == 'a' and st[1] == [0] and st[2][0] == 'use' and st[2][1][0] == 'k' and st[2][1][3] == 1 for st in blk['s'])
+                    if sets_true:
+                        rejected.add(v)
     R.ob('PATTERN', 'PATTERN::%s::rejects-NUL-and-slash' % fnkey(f), {0, 47} <= rejected, 'byte values with an explicit `return true` arm: %s; required at least NUL (0) and `/` (47): no accepted file name can denote a location outside the root' % sorted(rejected), '%s:%s' % (f.file, f.line), f)
     g = F.fn('iceoryx2_bb_system_types::file_name::invalid_content')
     lens = set()
